@@ -202,7 +202,7 @@ func safeFile(name string) string {
 	return s
 }
 
-func solveAll(obls []*Obligation, outDir string, timeout time.Duration, thorough bool, jobs int) []*Result {
+func solveAllInner(obls []*Obligation, outDir string, timeout time.Duration, thorough bool, jobs int) []*Result {
 	os.MkdirAll(outDir, 0755)
 	clearFacts() // printing and instantiation rebuild terms: no execution-time facts may apply here
 	res := make([]*Result, len(obls))
@@ -487,4 +487,62 @@ func raceBoth(o *Obligation, file string, timeout time.Duration) *Result {
 		}
 	}
 	return r
+}
+
+// solveAll: the quick pipeline decides every obligation; the thorough tier then asks a second, different solver
+// to confirm every discharge on the same query (the instantiated file when that is what was decided). A second
+// solver that answers sat on the original query is a disagreement and is reported as not discharged; one that
+// times out leaves the discharge standing with a single witness (recorded in the evidence).
+func solveAll(obls []*Obligation, outDir string, timeout time.Duration, thorough bool, jobs int) []*Result {
+	res := solveAllInner(obls, outDir, timeout, false, jobs)
+	if !thorough {
+		return res
+	}
+	var wg sync.WaitGroup
+	sem := make(chan struct{}, jobs)
+	for i := range res {
+		r := res[i]
+		if r == nil || !r.OK() || r.O.Expect != "unsat" || r.O.scanFail || r.File == "" {
+			continue
+		}
+		wg.Add(1)
+		go func(r *Result) {
+			defer wg.Done()
+			sem <- struct{}{}
+			defer func() { <-sem }()
+			file, qf := r.File, false
+			if strings.Contains(r.Solver, "(qf-inst)") {
+				file, qf = r.File+".qf", true
+			}
+			if _, err := os.Stat(file); err != nil {
+				return
+			}
+			for _, sp := range solverList() {
+				if strings.HasPrefix(r.Solver, sp.Name) {
+					continue
+				}
+				ct := timeout
+				if ct > 30*time.Second {
+					ct = 30 * time.Second
+				}
+				st, out, secs := runSolver(sp, file, ct)
+				tag := ""
+				if qf {
+					tag = "qf/"
+				}
+				r.Tried = append(r.Tried, fmt.Sprintf("confirm:%s%s:%s:%.2fs", tag, sp.Name, st, secs))
+				if st == "unsat" {
+					r.Agreed = append(r.Agreed, sp.Name)
+					return
+				}
+				if st == "sat" && !qf {
+					r.Status, r.Output = "sat", "solver disagreement: "+r.Solver+" unsat, "+sp.Name+" sat\n"+out
+					r.Solver = sp.Name
+					return
+				}
+			}
+		}(r)
+	}
+	wg.Wait()
+	return res
 }
